@@ -298,6 +298,57 @@ theorem delete_if_exists_reraises_unchanged (o : Except Exc Unit) (e : Exc)
     | fuelExhausted => simpa [deleteIfExists] using h
   · simp [deleteIfExists] at h
 
+/-- **remove_path_on_error** (default remover): a block that completes is left alone; when it
+    raises, its own exception comes out iff the removal succeeded or found nothing (ENOENT) —
+    every other error of the remover comes out instead, unchanged, never swallowed -/
+theorem remove_path_on_error_spec (body : Option Exc) (o : Except Exc Unit) :
+    (removePathOnError body o = .ok () ↔ body = none) ∧
+    (∀ b, removePathOnError body o = .error (.body b) ↔
+      body = some b ∧ (o = .ok () ∨ o = .error (.osError (some Gen.ENOENT)))) ∧
+    (∀ e, removePathOnError body o = .error (.fromRemove e) ↔
+      (∃ b, body = some b) ∧ o = .error e ∧ e ≠ .osError (some Gen.ENOENT)) := by
+  cases body with
+  | none => simp [removePathOnError]
+  | some b =>
+    cases hd : deleteIfExists o with
+    | ok u =>
+      cases u
+      have ho := (delete_if_exists_iff o).mp hd
+      refine ⟨by simp [removePathOnError, hd], fun b' => ?_, fun e => ?_⟩
+      · simp only [removePathOnError, hd]
+        constructor
+        · intro h; injection h with h; injection h with h; subst h; exact ⟨rfl, ho⟩
+        · rintro ⟨h, _⟩; injection h with h; subst h; rfl
+      · simp only [removePathOnError, hd]
+        constructor
+        · intro h; injection h with h; cases h
+        · rintro ⟨_, h1, h2⟩
+          rcases ho with ho | ho
+          · rw [ho] at h1; cases h1
+          · rw [ho] at h1; injection h1 with h1; exact absurd h1.symm h2
+    | error e' =>
+      have ho := delete_if_exists_reraises_unchanged o e' hd
+      have hne : e' ≠ .osError (some Gen.ENOENT) := by
+        intro h; subst h; subst ho; simp [deleteIfExists] at hd
+      refine ⟨by simp [removePathOnError, hd], fun b' => ?_, fun e => ?_⟩
+      · simp only [removePathOnError, hd]
+        constructor
+        · intro h; injection h with h; cases h
+        · rintro ⟨_, h | h⟩
+          · rw [h] at ho; cases ho
+          · rw [h] at ho; injection ho with ho; exact absurd ho.symm hne
+      · simp only [removePathOnError, hd]
+        constructor
+        · intro h; injection h with h; injection h with h; subst h; exact ⟨⟨b, rfl⟩, ho, hne⟩
+        · rintro ⟨_, h, _⟩; rw [h] at ho; injection ho with ho; subst ho; rfl
+
+example : removePathOnError (some .valueError) (.error (.osError (some 20))) =
+      .error (.fromRemove (.osError (some 20))) ∧
+    removePathOnError (some .valueError) (.error (.osError (some Gen.ENOENT))) =
+      .error (.body .valueError) ∧
+    removePathOnError (some (.other 2)) (.ok ()) = .error (.body (.other 2)) ∧
+    removePathOnError none (.error (.osError (some 20))) = .ok () := by decide
+
 /-- non-vacuity: both sides of both tables are inhabited -/
 example : ensureTree (.error (.osError (some Gen.EEXIST))) true = .ok () ∧
     ensureTree (.error (.osError (some Gen.EEXIST))) false = .error (.osError (some Gen.EEXIST)) ∧
